@@ -171,8 +171,10 @@ impl<S: Clone + Debug> SymbolTable<S> {
     }
 
     pub fn parent(&self, nx: SymbolIndex) -> Option<SymbolIndex> {
-        let mut edges = self.graph.edges_directed(nx, Direction::Incoming);
-        edges.next().map(|edge| edge.source())
+        // A symbol that was exported (imported somewhere) has several incoming edges. Its parent is the scope it was
+        // defined in, i.e. the source of its oldest edge; the edges are listed newest first.
+        let edges = self.graph.edges_directed(nx, Direction::Incoming);
+        edges.last().map(|edge| edge.source())
     }
 
     pub fn child(&self, nx: SymbolIndex, id: &Identifier) -> Option<SymbolIndex> {
